@@ -103,8 +103,19 @@ def run(ctx):
                 draw = lambda rid: X("w:drawing", {}, [X("wp:inline", {}, [X("a:graphic", {}, [X("a:graphicData", {}, [X("pic:pic", {}, [X("pic:blipFill", {}, [X("a:blip", {"r:embed": rid})])])])])])])
                 pkg.body = [X("w:p", {}, [X("w:r", {}, [X("w:rPr", {}, [X("w:rStyle", {"w:val": "Redacted"})]), X("w:t", {}, [XT("secret")]), draw("rIdA")]),
                                           X("w:r", {}, [X("w:t", {}, [XT("public")]), draw("rIdB")])])]
+            linked_doc = (i == 4)
+            if linked_doc:
+                # dedicated: a picture LINKED from a file next to the document: the command converts the file it was given BY NAME, like the library
+                from mammoth.docx.xmlparser import element as X, text as XT
+                pkg = gen_xml.Package()
+                pkg.rels = [("rIdL", "linked picture.png", B.REL + "image")]
+                pkg.body = [X("w:p", {}, [X("w:r", {}, [X("w:t", {}, [XT("see")]), X("w:drawing", {}, [X("wp:inline", {}, [X("a:graphic", {}, [X("a:graphicData", {}, [
+                    X("pic:pic", {}, [X("pic:blipFill", {}, [X("a:blip", {"r:link": "rIdL"})])])])])])])])])]
             d = os.path.join(wd.path, "c%d" % i)
             os.makedirs(d)
+            if linked_doc:
+                with open(os.path.join(d, "linked picture.png"), "wb") as f_:
+                    f_.write(b"\x89PNG linked bytes")
             name = rng.choice(["in.docx", "Üñï çødé.docx", "two.dots.docx"])
             path = os.path.join(d, name)
             data, parts = B.build(pkg)
@@ -117,6 +128,8 @@ def run(ctx):
             sm = rng.choice(STYLE_MAPS)
             if redacted:
                 sm, fmt = "r.Redacted => !", "html"
+            if linked_doc:
+                mode, sm = rng.choice(["path", "stdout"]), None
             args = [common.PY, "-m", "mammoth.cli", path]
             outdir = os.path.join(d, "out")
             # (the name of the output file says nothing about the format: that is --output-format's business)
@@ -210,7 +223,10 @@ def run(ctx):
                 ctx.nontrivial(i)
                 if mode == "output_dir" and files:
                     ctx.sample({"mode": mode, "format": fmt, "files": [f for f, _ in files], "stderr": err_lines[:2]})
-            if bad is None or out is not None:
+            if linked_doc and not bad and b"data:image/png;base64," not in (out or b"") and fmt != "markdown":
+                bad = "the linked picture next to the document is not in the command's output"
+                ctx.violation("oracle", bad, dict(meta, api="python -m mammoth.cli", argv=args[3:]), True)
+            if (bad is None or out is not None) and not linked_doc:
                 obs = "None" if out is None else "(Some (%s, %s, %s))" % (
                     T.lst(T.n, list(out)), T.lst(T.s, err_lines if err_lines and err_lines[-1] != "" or not err_lines else err_lines[:-1]),
                     T.lst(lambda fb: "(%s, %s)" % (T.s(fb[0]), T.lst(T.n, list(fb[1]))), sorted(files, key=lambda fb: int(fb[0].split(".")[0]))))
